@@ -744,10 +744,14 @@ def run_two_writer(ctx, rt, g, case):
             ctx.disagree("a concurrent add ended unexpectedly", case, res[who], None)
     explained = False
     for order in ("AB", "BA"):
-        # an add that failed with UncoordinatedWriteError may or may not have taken effect
+        # An add that failed with UncoordinatedWriteError may or may not have taken effect.  An add that reports
+        # ExistingChildError may be looking at its *own* first attempt (its shares were written, the publish was
+        # then declared uncoordinated, and the retry finds the name taken): the statement only forbids that an add
+        # *replaces* an entry, so such an add is also accepted as "took effect on a free name, reported exists".
         variants = [[]]
         for who in order:
-            variants = [v + [x] for v in variants for x in ([True, False] if res[who] == "ucwe" else [True])]
+            variants = [v + [x] for v in variants
+                        for x in ([True, False] if res[who] == "ucwe" else ["own", True] if res[who] == "exists" else [True])]
         for v in variants:
             m = dict(ref0)
             okay = True
@@ -755,7 +759,10 @@ def run_two_writer(ctx, rt, g, case):
                 if not applied:
                     continue
                 r, m = ref_apply(m, ops[who])
-                if res[who] != "ucwe" and r != res[who]:
+                if applied == "own":
+                    if r != "ok":
+                        okay = False
+                elif res[who] != "ucwe" and r != res[who]:
                     okay = False
             if okay and m == final:
                 explained = True
@@ -796,12 +803,13 @@ def run(ctx):
         g = grid.Grid(grid.fresh_dir("c20"), rt, num_servers=3, num_clients=2, k=1, happy=1, n=2)
         try:
             w = World(ctx, rt, g)
-            for tcase in twos:
-                run_two_writer(ctx, rt, g, tcase)
             for hcase in hists:
                 line, impl = run_history(ctx, w, hcase)
                 lines.append(line)
                 impls.append(impl)
+            # afterwards: the retry back-off of colliding writers moves the virtual clock by fractions of a second
+            for tcase in twos:
+                run_two_writer(ctx, rt, g, tcase)
         finally:
             g.close()
     model = ctx.model(lines)
